@@ -292,7 +292,9 @@ Definition check_1701 (fs : list field) : verdict :=
              field of the struct may read one trie node past the index; the fault depends on the neighbouring heap content *)
           if (ec =? 4) && (impl =? 0) && nonempty body then VKnown 1715 else
           if ec =? 4 then VBad 4 [] else
-          let out := if ec =? 0 then decode_all T_STRUCT outb else None in
+          (* SkipGo's model first: it bounds every declared length by the remaining input before converting it to a nat
+             (the decoder on malformed output with a huge string length would build that nat) *)
+          let out := if ec =? 0 then match skip_go T_STRUCT outb with Some [] => decode_all T_STRUCT outb | _ => None end else None in
           let spec := model_j2t o Spec rq flds jbody in
           match agree spec ec out with
           | 0 => VOk
@@ -303,6 +305,8 @@ Definition check_1701 (fs : list field) : verdict :=
             else if (agree (model_j2t o Spec rq flds' jbody) ec out =? 0) || (agree (model_j2t o qfl rq flds' jbody) ec out =? 0) then VKnown FINDING_BODY_LAST
             else if (ec =? 0) && (match spec with HErr _ => true | _ => false end) && existsb (fun q => is_infix q outb) (nbs_candidates 8 o rq flds)
             then VKnown FINDING_NBS_IGNORED_ERROR
+            else if (ec =? 0) && (match model_j2t o Spec rq flds' jbody with HErr _ => true | _ => false end) && existsb (fun q => is_infix q outb) (nbs_candidates 8 o rq flds')
+            then VKnown FINDING_NBS_IGNORED_ERROR     (* together with 1714: api.body consulted last lets the no_body_struct source win *)
             else if a =? 1 then VDrift 1
             else VBad 1 (hres_detail spec)
           end
@@ -489,7 +493,7 @@ Definition check_1702 (fs : list field) : verdict :=
         if (nc <? 0) || (nc >? 100000) then VBad 99 [] else
         match parse_calls (Z.to_nat nc) r2 with
         | Some (calls, [FB _]) =>
-          match decode_all T_STRUCT inb with
+          match (match skip_go T_STRUCT inb with Some [] => decode_all T_STRUCT inb | _ => None end) with
           | Some (VStruct vals) =>
             if negb (wf (VStruct vals)) then VSkip else
             let o := opts_of bits in
